@@ -226,6 +226,12 @@ def World.step (w : World) (st : Step) : World :=
 
 def World.run (w : World) (steps : List Step) : World := steps.foldl World.step w
 
+/-- The callbacks `runonce` makes when the tunnel's read file is ready: it is in every handler's
+`socks`, so every handler of that end gets its callback, in list order, each with whatever its own
+socket does (`ios i`). -/
+def passCallbacks (e : End) (ios : Nat → CbIo) (k : Nat) : List Step :=
+  (List.range k).map fun i => Step.cb e i (ios i)
+
 /-- Ghost: everything the endpoint ever wrote = what the tunnel consumed plus what is pending. -/
 def ESock.written (e : ESock) : Bytes := e.consumed ++ e.pending
 
